@@ -237,6 +237,35 @@ fn alphabet(n: usize, huge: bool) -> Vec<Op> {
     a
 }
 
+/// arguments around the widths a narrower cursor type would truncate at (u8, u16, u32, i64)
+fn wide_ks(n: usize) -> Vec<usize> {
+    let mut ks = vec![0usize, 1];
+    for b in [8u32, 16, 31, 32, 63] {
+        if (b as usize) < usize::BITS as usize {
+            let p = 1usize << b;
+            ks.push(p - 1);
+            ks.push(p);
+            ks.push(p + 1);
+            if n > 1 {
+                ks.push(p + n - 1);
+            }
+        }
+    }
+    ks.sort();
+    ks.dedup();
+    ks
+}
+
+fn alphabet_wide(n: usize) -> Vec<Op> {
+    let mut a = vec![Op::Next, Op::NextBack];
+    for k in wide_ks(n) {
+        a.push(Op::Nth(k));
+        a.push(Op::NthBack(k));
+    }
+    a.push(Op::Clone);
+    a
+}
+
 fn nontrivial_history(h: &[Op]) -> bool {
     let front = h.iter().any(|o| matches!(o, Op::Next | Op::Nth(_)));
     let back = h.iter().any(|o| matches!(o, Op::NextBack | Op::NthBack(_)));
@@ -407,13 +436,32 @@ pub fn c05<E: IGlue>(ctx: &mut Ctx) {
             return;
         }
     }
+    {
+        // phase 3: arguments next to 2^8, 2^16, 2^31, 2^32, 2^63 (depth 2)
+        let alpha = alphabet_wide(n);
+        let st: St<E::It> = St { its: vec![(E::iter(), 0..n)], active: 0 };
+        let mut h = Vec::new();
+        let mut count = 0u64;
+        let ok = dfs::<E>(ctx, &m, &alpha, &st, &mut h, 2, &mut count);
+        ctx.evals(count);
+        ctx.exhaustive("all call histories up to depth 2 with arguments around 2^8, 2^16, 2^31, 2^32, 2^63", count);
+        if !ok {
+            return;
+        }
+    }
     ctx.sample(json!({"enum": spec.name, "n_enabled": n, "history": ["nth(1)", "clone", "next_back", "switch(1)", "nth(18446744073709551615)"]}));
     check_adapters::<E>(ctx, &m);
     if ctx.failed() {
         return;
     }
     // long random histories (shrinkable)
-    let alpha = alphabet(n, true);
+    let mut alpha = alphabet(n, true);
+    for k in wide_ks(n) {
+        if k > n + 1 {
+            alpha.push(Op::Nth(k));
+            alpha.push(Op::NthBack(k));
+        }
+    }
     let alen = alpha.len();
     let strat = proptest::collection::vec((0..alen, 0..8usize), 0..64)
         .prop_map(move |v| {
